@@ -1989,3 +1989,91 @@ def rf165(run):
                               (g.name, x['callee'], x['l']), line=x['l'])
     run.ob(rule, ('closure',), n == 0, {'functions reachable from bb_version_generator': len(reach), 'list-editing calls': n})
     return 1
+
+
+# ---------------------------------------------------------------------------------------------
+# RF168: every exported item of a loaded module reaches the environment table
+# ---------------------------------------------------------------------------------------------
+
+def rf168(run):
+    rule = 'RF168'
+    run.rule(rule, 'MIR_load_module: under `export_p`, every path that does not end in the error callback calls setup_global before the loop '
+                   'goes on to the next item — whatever the kind of the item (function, data, bss) and whatever the environment already '
+                   'holds for the name.  "The definition loaded last" is then the one every later link binds to; an export that is skipped '
+                   '(say, a bss that gives way to initialised data of an earlier module) leaves imports on the older definition')
+    tu = run.tu('mir')
+    f = tu.func('MIR_load_module')
+    cfg = f.cfg
+    run.functions_analysed.add(('mir', f.name))
+    sg = set(calls_in(cfg, 'setup_global'))
+    run.control(rule, 'setup_global is called by MIR_load_module', bool(sg))
+    noret = {b for b in cfg.blocks if cfg.blocks[b].noreturn}
+    steps = set()
+    for lp in f.walk():
+        if lp['k'] == 'ForStmt' and lp['c'][2] is not None:
+            b = cfg.block_of(lp['c'][2])
+            if b is not None:
+                steps.add(b)
+    n = 0
+    for B in cfg.blocks.values():
+        if B.cond is None or len(B.succs) != 2:
+            continue
+        c = F.src(F.strip(B.cond)).replace(' ', '')
+        if not c.endswith('->export_p') and not c.endswith('->export_p)'):
+            continue
+        t = B.succs[0]
+        if t is None:
+            continue
+        n += 1
+        seen = cfg.reachable_from(t, avoid=lambda b: b in sg or b in noret)
+        # the step of the loop over the items, or the end of the function, reached without setup_global
+        escaped = sorted((seen & steps) | ({cfg.exit} & seen))
+        ok = not escaped
+        run.ob(rule, ('export', B.id), ok, {'condition': F.src(F.strip(B.cond))[:60], 'next item reachable without setup_global': not ok})
+        if not ok:
+            run.violation(rule, f, 'exported item not registered', 'MIR_load_module: under `%s` the next item is reachable without a call of '
+                          'setup_global: an exported item can be skipped, and imports of modules linked afterwards stay bound to the '
+                          'definition loaded before it' % F.src(F.strip(B.cond))[:50], line=B.cond['l'])
+    run.control(rule, 'the export_p branch of MIR_load_module found', n >= 1)
+    return n
+
+
+# ---------------------------------------------------------------------------------------------
+# RF171: load_bss_data_section writes the bytes of the item it is placing, nothing else
+# ---------------------------------------------------------------------------------------------
+
+def rf171(run):
+    rule = 'RF171'
+    run.rule(rule, 'load_bss_data_section is called once for a whole section on the first load and once *per member* when the module is loaded '
+                   'again (the addresses are kept).  Each memset / memcpy / memmove in it therefore writes at the placement pointer exactly the '
+                   'length of the item being placed (an expression over `curr_item`, directly or through a local assigned from one in the '
+                   'same branch).  A write sized by anything else — e.g. "padding up to a multiple of 8 from item->addr" — lands, on a '
+                   're-load, in the member that follows, whose lref cell is not written again for an already generated function')
+    tu = run.tu('mir')
+    f = tu.func('load_bss_data_section')
+    run.functions_analysed.add(('mir', f.name))
+    # locals assigned from an expression over curr_item
+    item_locals = set()
+    for x in f.walk():
+        if x['k'] == 'BinaryOperator' and x['op'] == '=' and F.strip(x['c'][0])['k'] == 'DeclRefExpr' and 'curr_item->' in F.src(x['c'][1]):
+            item_locals.add(F.strip(x['c'][0])['n'])
+    n = 0
+    for x in f.walk():
+        if x['k'] != 'CallExpr' or x.get('callee') not in ('memset', 'memcpy', 'memmove'):
+            continue
+        a = F.call_args(x)
+        dest, ln = F.src(F.strip(a[0])), F.strip(a[2])
+        ln_src = F.src(ln)
+        sized = 'curr_item->' in ln_src or (ln['k'] == 'DeclRefExpr' and ln['n'] in item_locals)
+        at_ptr = F.strip(a[0])['k'] == 'DeclRefExpr' and F.strip(a[0]).get('dk') == 'local'
+        ok = sized and at_ptr
+        n += 1
+        run.ob(rule, (x['l'],), ok, {'site': '%s:%d' % (f.relfile(), x['l']), 'call': F.src(x)[:80]})
+        if not ok:
+            run.violation(rule, f, 'write not sized by the placed item', '`%s` (line %d) writes %s: when the module is loaded again the function '
+                          'places one member per call, and this write reaches into the next member — an lref cell there is not rewritten '
+                          'for a function that already has machine code' %
+                          (F.src(x)[:70], x['l'], 'a length that is not the length of the item being placed' if not sized else 'at something other than the placement pointer'),
+                          line=x['l'])
+    run.control(rule, 'the writes of load_bss_data_section found', n >= 2)
+    return n
